@@ -700,3 +700,12 @@ func hostileSig(t *rapid.T, real []byte, label string) ([]byte, string) {
 	}
 	return real, "sig=real"
 }
+
+func signProof(pp *types.ProofProposal, a *sim.Actor) {
+	h := crypto.SignatureHash(pp)
+	sig, err := crypto.Sign(h[:], a.Key)
+	if err != nil {
+		panic(err)
+	}
+	pp.Signature = sig
+}
